@@ -69,6 +69,9 @@ type c20Case struct {
 	PeerOp [][]c20Op `json:"peer_ops"` // one list per peer
 	Mgmt   [][]c20Op `json:"mgmt"`     // one list per management actor
 	Sched  uint64    `json:"sched"`
+	// management calls (AddPeer of new neighbours, AddPath, ListPeer) issued while Stop runs: all must return, and
+	// nothing they start may survive the stop
+	StopRace int `json:"stop_race"`
 }
 
 func drawC20(t *rapid.T) c20Case {
@@ -84,6 +87,7 @@ func drawC20(t *rapid.T) c20Case {
 		}
 		p.SendMax = rapid.SampledFrom([]int{0, 0, 1, 2}).Draw(t, l+"sendmax")
 		p.AddPathRecv = rapid.IntRange(0, 3).Draw(t, l+"aprecv") == 0
+		p.PfxLimit = rapid.SampledFrom([]int{0, 0, 0, 2, 3}).Draw(t, l+"pfxlimit")
 		c.Peers = append(c.Peers, p)
 	}
 	ops := func(l string, kinds, n int) []c20Op {
@@ -107,6 +111,7 @@ func drawC20(t *rapid.T) c20Case {
 		c.Mgmt = append(c.Mgmt, ops(fmt.Sprintf("mo%d", i), c20MgmtOps, rapid.IntRange(3, 12).Draw(t, fmt.Sprintf("nmo%d", i))))
 	}
 	c.Sched = uint64(rapid.IntRange(0, 1<<30).Draw(t, "sched"))
+	c.StopRace = rapid.SampledFrom([]int{0, 0, 2, 4}).Draw(t, "stop_race")
 	return c
 }
 
@@ -453,8 +458,30 @@ func runC20(t *testing.T) func(c c20Case, st *verifkit.Stats) *verifkit.Failure 
 			if len(c.Mgmt) > 0 && r.calls >= 3 {
 				st.Nontrivial()
 			}
-			// ---- clean shutdown ----
-			if f := n.stop(); f != nil {
+			// ---- clean shutdown, with management calls racing it ----
+			var rwg sync.WaitGroup
+			for k := 0; k < c.StopRace; k++ {
+				rwg.Add(1)
+				go func(k int) {
+					defer rwg.Done()
+					np := rsPeer{Addr: fmt.Sprintf("10.0.9.%d", k+1), ID: fmt.Sprintf("10.0.9.%d", k+1), Kind: rsEBGP, AS: 65100 + uint32(k)}
+					time.Sleep(time.Duration(k*(int(c.Sched%7))) * 30 * time.Microsecond)
+					_ = n.s.AddPeer(ctx, &api.AddPeerRequest{Peer: rsApiPeer(rsGlobal{}, &np)})
+					_ = n.s.ListPeer(ctx, &api.ListPeerRequest{}, func(*api.Peer) {})
+				}(k)
+			}
+			if c.StopRace > 0 {
+				time.Sleep(time.Duration(c.Sched%5) * 30 * time.Microsecond)
+			}
+			f := n.stop()
+			rwg.Wait()
+			if f == nil {
+				synctest.Wait()
+				if left := simLeftover(); len(left) > 0 {
+					f = verifkit.Failf("goroutine-leak", "%d goroutine(s) of the server are still alive after Stop and the management calls that raced it:\n%s", len(left), strings.Join(left, "\n\n"))
+				}
+			}
+			if f != nil {
 				f.Msg += "\n  " + strings.Join(r.log, "\n  ")
 				return f
 			}
